@@ -28,9 +28,18 @@ CLAIMED = {
     'C09': ('CBMC/DFCC function + loop contracts on code extracted from /repo each run; bounded SMT VCs for the regularisation terms',
             'proof that sum_reduce/min_reduce combine every per-thread accumulator exactly once and normalise once, that the linear and gboost accumulators clear/add/divide all their fields, and that the dataset iterators hand map() the sample count and batch size and each task the inputs/targets of exactly its range; regularisation formulas only bounded (|W| <= 3, reported as bounded); loss values, re-association and every concurrency effect are not decided',
             'pool_t::map by the contract proved in C17; Eigen coefficient-wise semantics assumed', '7/C09'),
+    'C10': ('CBMC/DFCC function + loop contracts on code extracted from /repo each run',
+            'proof of the consistency clauses: loop_scalar/sclass/mclass call the operator exactly once per given (non-missing) value with in-range sample positions; stump and table predict add the table row of exactly the group that split() assigns (missing or unknown values: nothing); scale multiplies row i by scale[min(i,n-1)] exactly once; merge nulls a learner only after a successful try_merge into an earlier one and keeps the rest in order; the RSS-optimality clause is not decided',
+            'select_iterator loop, Eigen row operations, cluster_t::assign, try_merge, std::remove_if/lower_bound assumed; fitted-learner shape invariants assumed', '7/C10'),
     'C11': ('CBMC/DFCC function contract on code extracted from /repo each run',
             'proof of the early-stopping monitor transition (whole abstract state in the postcondition, frame = its three members) for every observation and prior state; statistics-equality clauses not decided',
             'mean_error assumed deterministic; clang AST + cxx2c printer + CBMC trusted', '7/C11'),
+    'C12': ('weakest-precondition VCs over Int (z3/cvc5) with loop invariants on the extracted splitter/sampler bodies + CBMC/DFCC contracts for the gboost sampler and generator lambdas',
+            'proof that k-fold and random splits copy every input element exactly once into exactly one of train/valid (sizes add up, both sorted), that fold f validates [f*chunk, ...) so the k folds tile the shuffled input with sizes differing by < k, that the random train size is round-half-up(p*n/100), that splits depend only on (samples, seed, folds, percentage), and that sampling with/without replacement returns count sorted (distinct) members; for all n <= 2^56',
+            'std::shuffle = permutation determined by the rng state, std::sort, uniform/discrete distributions, Eigen segment copies assumed; pigeonhole step from exactly-once copy to disjoint union done on paper', '7/C12'),
+    'C13': ('CBMC/DFCC function + loop contracts with a ghost grid point + weakest-precondition VCs over Int for the slot arithmetic, on code extracted from /repo each run',
+            'proof that evaluate() asks the callback for a grid point iff it is a candidate not yet evaluated, rejects non-finite values before storing, returns the evaluations sorted; local_search candidates stay on the grid; both tuners evaluate a point at most once and at most max_evals-1+3^d points; ml::tune decodes (trial, fold) bijectively from the task index, passes that fold\'s split and stores under that (trial, fold); optimum_trial is the least index attaining the minimum mean validation error',
+            'std::remove_if/find_if/sort/erase, combinatorial iterator, Eigen coefficient ops, pool.map (C17) assumed; interleavings not decided', '7/C13'),
     'C14': ('CBMC/DFCC function + loop contracts with Eigen coefficient-wise statements lifted to a scalar kernel at a ghost position, on code extracted from /repo each run; SMT lemmas over the reals',
             'proof for the scaling statistics: constructor, ::update, ::done (neutral scaling for N<=1 or disabled columns; div = 1/mul with the same denominator; multipliers >= eps), scale/upscale/make_scaling use the same (offset, factor) per mode with NaN->0 after scaling, and the affine up-scaling of (W, b); lemmas over R: upscale(scale(v)) = v and W\'x+b\' = upscale(W scale(x) + b) for all dimensions; rounding-error magnitudes not decided',
             'Eigen coefficient-wise operator semantics (engine/eigencw.py closed list), sqrt/min/max facts, one IEEE subtraction fact assumed; double treated as real in the lemmas', '7/C14'),
@@ -40,6 +49,9 @@ CLAIMED = {
     'C17': ('CBMC/DFCC function + loop contracts (sequential, monitor semantics for condition_variable::wait) and SMT VCs over Int, on code extracted from /repo each run',
             'proof that pool_t::map generates tasks that tile [0,elements) exactly once for every elements/chunk size (count = reserve count), passes worker ids below the pool size, enqueues under the lock and returns only after the section waited for every task; worker loop pops only a non-empty queue and exits only on stop; constructor/destructor/section protocol; ALL interleaving claims (exactly-once execution across workers, no concurrent reuse of a worker id, completion under every schedule, deadlock-free shutdown) are NOT decided by this technique',
             'std::mutex/condition_variable/deque/packaged_task/future basics assumed; task generation and sequential worker protocol only', '7/C17'),
+    'C19': ('CBMC/DFCC function contracts (check-then-assign) on code extracted from /repo each run, std::variant dispatch printed from clang\'s overload resolution',
+            'proof for every parameter kind that an accepted assignment stores the converted value inside the declared domain and a rejected one throws leaving the whole record (both halves of a pair) unchanged; the domain predicate is an invariant of the storage; constructors reject out-of-domain defaults; kind-mismatched reads/assignments throw; unknown names throw and duplicate registrations leave the list unchanged; clone equality and factory ids are not decided',
+            'std::variant/visit semantics, std::find/find_if, string parsing (stoll/stod) as deterministic uninterpreted functions assumed', '7/C19'),
     'C20': ('CBMC/DFCC function contract on code extracted from /repo each run',
             'proof that histogram_t::bin(v) equals the counting rule #{j: t_j <= v} for every finite real v / integer |v|<=2^53 and every sorted threshold list of symbolic length',
             'std::upper_bound partition-point contract assumed (ghost index); thresholds sorted, not NaN', '7/C20'),
